@@ -62,7 +62,7 @@ def compute_chunk_offsets(byte_ranges, chunks):
 
 def compute_selected_ranges(byte_ranges, indexer):
     n_rows = len(byte_ranges)
-    if isinstance(indexer, int):
+    if isinstance(indexer, (int, np.integer)):
         indexer = [indexer]
 
     if isinstance(indexer, slice):
@@ -164,9 +164,14 @@ class Array:
                 chunk_data = [parse_data(part, type_code=self.type_code) for part in raw_bytes]
                 data_.extend(chunk_data)
 
-            data = np.stack(data_, axis=0)
+            if data_:
+                data = np.stack(data_, axis=0)
+            else:
+                data = np.empty((0, *self.shape[1:]), dtype=self.dtype)
 
-        new_indexers = tuple(cons(slice(None), indexers[1:]))
+        # an integer row indexer drops the rows axis, just like numpy
+        row_indexer = 0 if isinstance(indexers[0], (int, np.integer)) else slice(None)
+        new_indexers = tuple(cons(row_indexer, indexers[1:]))
         return data[new_indexers]
 
     @property
